@@ -184,6 +184,9 @@ pub fn run_timeout(seed: u64, mut ov: impl FnMut(&mut engine::Cfg)) -> ! {
     ov(&mut cfg);
     engine::init(cfg);
     engine::set_extra("params", engine::json_str(&format!("{:?}", p)));
+    if p.tcp {
+        engine::set_extra("kernel_nondet", "true".to_string());
+    }
     rt::boot(&p.rt);
     *rt::HUNG_NOTE.lock().unwrap() = Some(hung_note);
     engine::set_diag(|| format!("in flight: {}", OPS.pending()));
@@ -299,7 +302,10 @@ pub fn run_timeout(seed: u64, mut ov: impl FnMut(&mut engine::Cfg)) -> ! {
                 }
                 // a stalled thread may overrun a short timeout of its own (the runtime looks at its
                 // timers before it polls again): short ones only in undisturbed runs
-                let ct = if quiet { ct } else { ct.max(50_000_000) };
+                // and never short in virtual time at all: the handshake completes in softirq context
+                // and the virtual clock must not run ahead of it (a jump of > 50 ms makes the engine
+                // give the kernel real time first)
+                let ct = if quiet { ct.max(1_000_000_000) } else { ct.max(1_000_000_000) };
                 let o = OPS.begin("reader connect_timeout to a listening socket".to_string());
                 let t0 = engine::now();
                 timed_op_begins(Some(ct));
@@ -538,6 +544,9 @@ pub fn run_cancel(seed: u64, mut ov: impl FnMut(&mut engine::Cfg)) -> ! {
     ov(&mut cfg);
     engine::init(cfg);
     engine::set_extra("params", engine::json_str(&format!("{:?}", p)));
+    if p.connect && !p.accept {
+        engine::set_extra("kernel_nondet", "true".to_string());
+    }
     rt::boot(&p.rt);
     *rt::HUNG_NOTE.lock().unwrap() = Some(hung_note);
     engine::set_diag(|| format!("in flight: {}", OPS.pending()));
